@@ -36,6 +36,16 @@ inductive FrameErr where
 def Data.tryNew (d : List UInt8) : Except FrameErr (List UInt8) :=
   if d.length > 0xFF then .error (.tooLong 0xFF d.length) else .ok d
 
+/-- The verdict of `Data::try_new` as a function of the length alone (what the driver evaluates for
+    blocks too large to materialise as a list). -/
+def Data.tryNewLen (n : Nat) : Except FrameErr Unit :=
+  if n > 0xFF then .error (.tooLong 0xFF n) else .ok ()
+
+theorem Data.tryNew_verdict (d : List UInt8) :
+    (Data.tryNew d).map (fun _ => ()) = Data.tryNewLen d.length := by
+  unfold Data.tryNew Data.tryNewLen
+  split <;> rfl
+
 /-- `HEX_DIGITS[n]` for `n < 16`. -/
 def hexDigit (n : UInt8) : UInt8 := if n < 10 then 48 + n else 55 + n
 
